@@ -37,6 +37,15 @@ Fixpoint comparable_ty (t : ty) : bool :=
   | _ => true
   end.
 
+(* reflect.Value.Comparable: deep, through interface-typed components *)
+Fixpoint comparable_val (v : gval) : bool :=
+  match v with
+  | GAny (Some (t, x)) => comparable_ty t && comparable_val x
+  | GList _ items => forallb comparable_val items
+  | GStruct vals => forallb comparable_val vals
+  | _ => true
+  end.
+
 (* go/token.IsIdentifier && IsExported for ASCII names (keywords are all lower case) *)
 Definition is_upper (c : N) : bool := (65 <=? c) && (c <=? 90).
 Definition is_ident_char (c : N) : bool :=
@@ -159,13 +168,17 @@ Fixpoint unm (fuel : nat) (o : copts) (R : registry) (t : ty) (cur : gval) (ts :
          match g with
          | O => OutOfFuel
          | S g' =>
+           (* the end marker is looked for first, then the bound, then the element is unmarshalled
+              (also on the end-of-stream signal, which the element's unmarshaller reports) *)
            match ts with
-           | [] => Err EEnd
            | tk :: rest =>
                if kind tk =? KArrayEnd then Ok (items, rest)
                else if Nat.leb (length items) idx then Err ETooMany
                else bind (unm f o R et (nth idx items (zero et)) ts) (fun r =>
                     arr_loop g' et (set_nth idx (fst r) items) (S idx) (snd r))
+           | [] =>
+               if Nat.leb (length items) idx then Err ETooMany
+               else bind (unm f o R et (nth idx items (zero et)) []) (fun _ => Err EEnd)
            end
          end) in
     let slice_loop :=
@@ -174,7 +187,7 @@ Fixpoint unm (fuel : nat) (o : copts) (R : registry) (t : ty) (cur : gval) (ts :
          | O => OutOfFuel
          | S g' =>
            match ts with
-           | [] => Err EEnd
+           | [] => bind (unm f o R et (zero et) []) (fun _ => Err EEnd)
            | tk :: rest =>
                if kind tk =? KArrayEnd then Ok (acc, rest)
                else bind (unm f o R et (zero et) ts) (fun r => slice_loop g' et (acc ++ [fst r]) (snd r))
@@ -231,10 +244,12 @@ Fixpoint unm (fuel : nat) (o : copts) (R : registry) (t : ty) (cur : gval) (ts :
          | O => OutOfFuel
          | S g' =>
            match ts with
-           | [] => Err EEnd
+           | [] => bind (unm f o R kt (zero kt) []) (fun _ => Err EEnd)
            | tk :: rest =>
                if kind tk =? KMapEnd then Ok (GMap isnil m, rest)
                else bind (unm f o R kt (zero kt) ts) (fun kr =>
+                    if negb (comparable_val (fst kr)) then Err EBadMapKey    (* an unhashable value in an interface-typed key *)
+                    else
                     bind (unm f o R vt (zero vt) (snd kr)) (fun vr =>
                     map_loop g' kt vt false (map_set (fst kr) (fst vr) m) (snd vr)))
            end
